@@ -127,6 +127,13 @@ impl Stage<'_> {
             }
         }
     }
+
+    /// Verification hook: number of boxed systems in every group of this
+    /// stage, i.e. the layout that is really executed. Read-only.
+    #[cfg(feature = "verif-hooks")]
+    pub fn verif_group_sizes(&self) -> Vec<usize> {
+        self.groups.iter().map(|group| group.len()).collect()
+    }
 }
 
 #[derive(Default)]
